@@ -259,10 +259,23 @@ class Extractor:
             if not (isinstance(lit, tuple) and lit[0] == "str"):
                 raise Unknown("%s: take_except argument is not a literal" % self.cur_fn)
             return ("minus", inner, (take_except_model(self.facts), lit[1]))
+        if path in ("nom::character::complete::one_of", "nom::character::complete::none_of"):
+            lit = self.value(args[0], env)
+            if not (isinstance(lit, tuple) and lit[0] == "str"):
+                raise Unknown("%s: %s argument is not a literal" % (self.cur_fn, path))
+            cs = CS.of(*[ord(c) for c in lit[1]]) if isinstance(lit[1], str) else lit[1]
+            return ("cls", cs if path.endswith("one_of") else ~cs)
+        if path == "nom::character::complete::anychar":
+            return ("cls", UNIVERSE)
         if path == "nom::character::complete::satisfy":
             a = args[0]
             if a.get("k") == "Closure":
                 return ("cls", self.closure_set(a, env))
+            if a.get("k") == "Path" and str(a.get("path", "")).startswith(e3.CHAR_IMPL):
+                nm = str(a["path"]).split("::")[-1]
+                cs = e3.ASCII_METHODS.get(nm) or e3.unicode_method(nm)
+                if cs is not None:
+                    return ("cls", cs)
             if a.get("k") == "Path" and (a.get("rid") or a.get("id")) in self.facts.fns:
                 try:
                     return ("cls", e3.pred_set(self.facts, self.facts.fns[a.get("rid") or a["id"]]))
